@@ -193,7 +193,10 @@ def run(ctx):
                     ({"CACHE_SIZE_LIMIT": "1"}, "SettingValidationError"), ({"NORMALIZE": None}, "TypeError"),
                     # a timezone name nothing resolves (neither the tz database nor the library's table) is a wrong value
                     ({"TIMEZONE": "Foo/Bar"}, "SettingValidationError"), ({"TO_TIMEZONE": "Mars/Olympus"}, "SettingValidationError"),
-                    ({"TIMEZONE": "UTC", "TO_TIMEZONE": "local"}, "SettingValidationError"), ({"TIMEZONE": "+2500x"}, "SettingValidationError")]
+                    ({"TIMEZONE": "UTC", "TO_TIMEZONE": "local"}, "SettingValidationError"), ({"TIMEZONE": "+2500x"}, "SettingValidationError"),
+                    # list-valued settings with an element of the wrong type: rejected (SettingValidationError or TypeError) for every string
+                    ({"SKIP_TOKENS": [1]}, "rejected"), ({"REQUIRE_PARTS": [1]}, "rejected"), ({"PARSERS": [1]}, "rejected"), ({"DEFAULT_LANGUAGES": [1]}, "rejected"),
+                    ({"SKIP_TOKENS": [None, "t"]}, "rejected")]
     for stb, kind in bad_settings:
         for s in R.sample(strs, 3) + ["", "2015-01-01", "10:30", "1 hour ago", "1484823450"]:
             jobs.append((R.choice(["parse", "gdd"]), s, {"settings": stb}, None)); expect.append(kind)
@@ -232,6 +235,9 @@ def run(ctx):
                 why = "exception %s escaped for a valid configuration" % val
             elif val:
                 distinct.add(str(job[1]))
+        elif exp == "rejected":
+            if tag != "exc" or val not in DOC:
+                why = "an invalid setting is not rejected for this string: %s %s" % (tag, val)
         elif exp == "setting-decides":
             if tag == "exc" and val != "SettingValidationError":
                 why = "exception %s escaped for a timezone setting" % val
